@@ -65,7 +65,7 @@ def run():
     from monitors import common, cli_props
     import shutil
     import time
-    r = findings.Run("C10")
+    r = findings.Run("C10", level="fault_enumeration")
     quick = common.tier() == "quick"
     n = 3000 if quick else 30000
     rnd = random.Random(common.seed() + 10)
